@@ -4,7 +4,7 @@
 (* VerifyRounds.tla. After every event that runs verifier code the harness reads the real objects back: `reg`     *)
 (* (the round whose ProvingAttestationCache is registered), `aggs` (relativity_map of EVERY round object so far), *)
 (* `pend` (the registered PendingChallengeCaches) and `fin` (rounds whose callback fired). Events:                *)
-(*   V / W          verify_attestation_values: a new round was registered / it was refused (a round is running)   *)
+(*   V              verify_attestation_values: a new round was registered                                         *)
 (*   M n            on_received_attestation ran: n challenges                                                     *)
 (*   C k g i hc r keep   the prover handled challenge <<k, g, i, hc>> and answered r                              *)
 (*   D k g i hc r keep   on_challenge_response for that answer                                                    *)
@@ -35,7 +35,6 @@ Obs(e) == /\ reg' = e.reg
 TraceNext == /\ l <= Len(Ev)
              /\ LET e == Ev[l] IN
                   \/ /\ e.op = "V" /\ Verify /\ Obs(e)
-                  \/ /\ e.op = "W" /\ Reverify /\ Obs(e)
                   \/ /\ e.op = "M" /\ Received /\ e.n = NP /\ Obs(e)
                   \/ /\ e.op = "C" /\ OnChallenge(Rec(e), e.r, e.keep)
                   \/ /\ e.op = "D" /\ OnResponse([k |-> e.k, g |-> e.g, i |-> e.i, hc |-> e.hc, r |-> e.r], e.keep)
